@@ -19,6 +19,12 @@ CHECKS = {
     "C12": ("Hypothesis-generated histories of table operations vs a list-of-rows model (uid encoded in position and rotation vector); rejection cases generated",
             "Model-based (stateful) exploration: histories of <=10 table operations over a pool of tables are replayed on a plain Python row model; every live table is compared with its model after every step; inconsistent inputs must raise the documented exception type and leave the table unchanged.",
             "polars null semantics assumed for predicates; sort position of nulls, feature column order and dtypes not asserted; all-null columns contributed only by empty inputs may be absent", "4/C12"),
+    "C02": ("Hypothesis-generated (tomogram, chunking, pose class incl. crop-window boundary classes, shape, order, scale, corner_safe) vs scipy map_coordinates at the stated sampling rule; differential between the four loading routes",
+            "Generated-input exploration with a reference-model oracle (voxel-by-voxel sampling rule inside the guaranteed region, exact-block class, finite fill / out-of-bound error contract, identical results from load / asnumpy / load_iter / construct_dask).",
+            "guaranteed region without corner_safe = voxel centres within (min(shape)-1)/2 of the box centre; order-3 values compared >= 3 voxels inside the tomogram with 2e-2*range (local prefilter); nearest-neighbour rounding ties skipped", "4/C02"),
+    "C13": ("Hypothesis-generated tables (orientations near 0/pi, feature dtypes with nulls, precisions, suffixes) round-tripped through data frame / parquet / csv / to_file and compared with the original",
+            "Generated-input exploration with a round-trip oracle: exact for data frames and Parquet, to the requested decimal precision for CSV; column order and suffix dispatch checked on the written bytes.",
+            "strings that CSV type inference cannot distinguish (empty, numeric-looking, true/false, NaN) are excluded from the domain; dtype equality not asserted for CSV", "4/C13"),
 }
 
 NOT_YET = {}
